@@ -9,6 +9,7 @@
    malformed beyond these rules (illegal bytes, whitespace, version syntax, CRLF discipline) is decided against the
    code by the correspondence and the by-construction oracle over mutation classes. *)
 From Via Require Import M_Char M_Parse M_Receive P_Parse P_C02.
+From Via Require Import M_Imp Gen_Parse P_Imp.
 Local Open Scope N_scope.
 
 Theorem C02_head_error_is_invalid : forall cfg v buf q1 rest,
@@ -151,3 +152,18 @@ Print Assumptions C02_body_without_length_is_411.
 Print Assumptions C02_trace_is_405_and_not_echoed.
 Print Assumptions C02_bad_chunk_is_400.
 Print Assumptions C02_chunks_over_limit_is_413.
+
+(* ---- the tie to the source, as a theorem ----
+   The character-level parser functions of the model are not only compared with the code on generated inputs: the bodies
+   of the C++ functions (parse_char) are translated from clang's AST on every run (translate/parse.py -> Gen_Parse.v, a
+   term of the small imperative language of M_Imp.v), and the model function is proved to compute, for EVERY state,
+   character and limit configuration (strict and lenient CRLF), exactly what the translated body computes.  A change of
+   the source that changes what parse_char does makes this theorem fail. *)
+Theorem C02_request_line_model_is_the_source : forall L r c,
+  run_body (rl_lim L) c (rl_src L) (rl_store r) = (rl_store (fst (rl_parse_char L r c)), snd (rl_parse_char L r c)).
+Proof. exact rl_parse_char_is_the_source. Qed.
+Theorem C02_field_line_model_is_the_source : forall L f c,
+  run_body (fl_lim L) c (fl_src L) (fl_store f) = (fl_store (fst (fl_parse_char L f c)), snd (fl_parse_char L f c)).
+Proof. exact fl_parse_char_is_the_source. Qed.
+Print Assumptions C02_request_line_model_is_the_source.
+Print Assumptions C02_field_line_model_is_the_source.
